@@ -589,10 +589,37 @@ fn json_value(depth: u32) -> BoxedStrategy<serde_json::Value> {
 }
 
 fn json_text() -> BoxedStrategy<Vec<u8>> {
-	(json_value(4), any::<bool>()).prop_map(|(v, pretty)| if pretty { serde_json::to_vec_pretty(&v).unwrap() } else { serde_json::to_vec(&v).unwrap() }).boxed()
+	let plain = (json_value(4), any::<bool>()).prop_map(|(v, pretty)| if pretty { serde_json::to_vec_pretty(&v).unwrap() } else { serde_json::to_vec(&v).unwrap() });
+	prop_oneof![5 => plain, 1 => long_multibyte(json_value(2).boxed())].boxed()
+}
+
+/// an object with the given value and a long string of multi-byte characters, shifted by 0-3
+/// ASCII bytes, so that every byte offset of a buffer or message limit (1 KiB, 4 KiB, 8 KiB,
+/// 64 KiB) falls inside a multi-byte character in some of the texts; optionally re-spelled
+/// with white space runs
+fn long_multibyte(inner: BoxedStrategy<serde_json::Value>) -> impl Strategy<Value = Vec<u8>> {
+	(inner, 0usize..4, prop_oneof![4 => 200usize..1200, 2 => 1200usize..4000, 1 => 16_000usize..24_000], 0usize..4, prop_oneof![2 => Just(0u32), 1 => 1u32..]).prop_map(|(v, shift, chars, alphabet, spell)| {
+		let pool: &[char] = match alphabet {
+			0 => &['ä', 'ö', 'é', 'ß'],
+			1 => &['€', '日', '本', '→'],
+			2 => &['𝄞', '😀', '𐍈'],
+			_ => &['a', 'ä', '€', '𝄞', ' ', '日'],
+		};
+		let mut m = vt::model::Mix::new((chars * 31 + shift) as u64);
+		let long: String = (0..chars).map(|_| pool[m.below(pool.len() as u64) as usize]).collect();
+		let mut o = serde_json::Map::new();
+		o.insert("a".repeat(shift + 1), v);
+		o.insert("description".into(), long.into());
+		o.insert("tilejson".into(), "3.0.0".into());
+		vt::gen::respell(&serde_json::Value::Object(o).to_string(), spell).into_bytes()
+	})
 }
 
 fn tilejson_text() -> BoxedStrategy<Vec<u8>> {
+	prop_oneof![5 => tilejson_plain(), 1 => long_multibyte(tilejson_plain().prop_map(|b| serde_json::from_slice(&b).unwrap_or(serde_json::Value::Null)).boxed())].boxed()
+}
+
+fn tilejson_plain() -> BoxedStrategy<Vec<u8>> {
 	("[a-zA-Z äöü]{0,10}", proptest::option::of((-180.0f64..180.0, -90.0f64..90.0, -180.0f64..180.0, -90.0f64..90.0)), proptest::option::of((-180.0f64..180.0, -90.0f64..90.0, 0u8..30)), proptest::option::of(0u8..32), proptest::option::of(0u8..32), proptest::collection::vec(("[a-z_]{1,8}", proptest::collection::vec(("[a-z]{1,6}", "[A-Za-z]{1,8}"), 0..3), proptest::option::of(0u8..20)), 0..3), proptest::option::of(proptest::collection::vec("[a-z:/{}.]{0,20}", 0..3)))
 		.prop_map(|(name, bounds, center, minzoom, maxzoom, layers, tiles)| {
 			let mut o = serde_json::Map::new();
@@ -1063,6 +1090,9 @@ fn dir_names() -> BoxedStrategy<String> {
 				1 => ("[0-9a-z+-]{1,4}", "[0-9a-z+-]{1,12}", "[0-9a-z.+-]{1,14}").prop_map(|(a, b, c)| format!("{a}/{b}/{c}")),
 				// stray members with multi-byte characters at every distance from the end of the name
 				2 => (0u8..6, 0u32..9, "[0-9a-z.äß€日𝄞]{1,9}").prop_map(|(z, x, n)| format!("{z}/{x}/{n}")),
+				// upper-case characters whose lower-case form has another UTF-8 length (KELVIN SIGN,
+				// ANGSTROM SIGN, OHM SIGN, CAPITAL SHARP S, I WITH DOT ABOVE), with tile extensions
+				2 => (0u8..6, 0u32..9, "[0-9aK\u{212a}\u{212b}\u{2126}\u{1e9e}\u{130}Ä]{1,5}", prop_oneof![Just(".png"), Just(".pbf"), Just(".PNG"), Just(".jpg.br"), Just(".pbf.gz"), Just("")]).prop_map(|(z, x, n, e)| format!("{z}/{x}/{n}{e}")),
 				1 => prop_oneof![Just("tiles.json"), Just("meta.json.gz"), Just("metadata.json.br"), Just("tiles.json.br"), Just("README"), Just("3/readme.txt"), Just("3/4/x.png"), Just("3/99999999999/1.png"), Just("300/1/1.png"), Just("ä/1/1.png")].prop_map(|s| s.to_string()),
 			]
 	.boxed()
